@@ -99,27 +99,29 @@ from vgi_rpc.utils import IpcValidation, ValidatedReader, new_ipc_stream
 # ---------------------------------------------------------------------------
 
 
-_ACCESS_LOG_ERROR_MESSAGE_LIMIT = 500
-"""Cap for ``error_message`` fields surfaced via the access log.
+_ACCESS_LOG_ERROR_MESSAGE_LIMIT: int | None = None
+"""Cap for ``error_message`` fields surfaced via the access log (``None`` = no cap).
 
-Long exception messages (typically with embedded tracebacks or repeated
-context) bloat each JSONL record without adding signal — the full traceback
-is logged separately by ``_log_method_error``.  The cap matches the
-historical inline truncation used at every dispatch site.
+``docs/access-log-spec.md`` (§4.1, §5b) forbids a length cap on
+``error_message`` -- operators rely on the full server-side message -- and the
+pipe-family dispatch paths never applied one.  The HTTP shells historically
+truncated to 500 characters; the knob is kept, but it is off by default so
+every transport reports the same, complete message.
 """
 
 
-def _truncate_error_message(exc: BaseException | None, limit: int = _ACCESS_LOG_ERROR_MESSAGE_LIMIT) -> str:
+def _truncate_error_message(exc: BaseException | None, limit: int | None = _ACCESS_LOG_ERROR_MESSAGE_LIMIT) -> str:
     """Render an exception's message for the access-log ``error_message`` field.
 
     Returns ``""`` for ``None`` (the no-error case).  Otherwise returns
-    ``str(exc)`` truncated to ``limit`` characters.  Centralises the
-    historically duplicated ``str(exc)[:500]`` pattern across the unary
-    and stream dispatch shells so the truncation policy is one knob.
+    ``str(exc)``, truncated to ``limit`` characters when a limit is given.
+    Centralises the rendering across the unary and stream dispatch shells so
+    the policy is one knob.
     """
     if exc is None:
         return ""
-    return str(exc)[:limit]
+    text = str(exc)
+    return text if limit is None else text[:limit]
 
 
 def _log_method_error(protocol_name: str, method_name: str, server_id: str, exc: BaseException) -> str:
@@ -263,7 +265,11 @@ def _emit_access_log(
         }
         if cancelled:
             extra["cancelled"] = True
-        if error_message:
+        if status == "error":
+            # The schema requires a non-empty error_message on every error
+            # record, and str(exc) is empty for e.g. ``raise ValueError()``.
+            extra["error_message"] = error_message or error_type or "error"
+        elif error_message:
             extra["error_message"] = error_message
         if server_version:
             extra["server_version"] = server_version
